@@ -193,6 +193,10 @@ func (e *effEngine) classify1(v ssa.Value) (class, string) {
 	case *ssa.Const, *ssa.Function, *ssa.Builtin:
 		return cLocal, "constant"
 	case *ssa.Global:
+		if x.Pkg != nil && !(x.Pkg.Pkg.Path() == modPath || strings.HasPrefix(x.Pkg.Pkg.Path(), modPath+"/")) {
+			// sentinel values of other packages (io.EOF, http.ErrNotMultipart, ...): library state is not rux's to verify
+			return cLocal, "value of another package (" + x.Pkg.Pkg.Path() + "." + x.Name() + ")"
+		}
 		return cShared, "package variable " + x.Name()
 	case *ssa.MakeSlice, *ssa.MakeMap, *ssa.MakeChan, *ssa.MakeClosure:
 		return cLocal, "fresh allocation"
